@@ -194,7 +194,13 @@ func (jenny RawTypes) defaultValuesForStructType(structType ast.Type, packageMap
 				defaults.Set(field.Name, jenny.defaultValuesForReference(field.Type, packageMapper))
 				continue
 			case ast.KindStruct:
-				defaultMap := field.Type.Default.(map[string]interface{})
+				// the default of a struct is expected to be a map: anything
+				// else is used as it is
+				defaultMap, isMap := field.Type.Default.(map[string]interface{})
+				if !isMap {
+					defaults.Set(field.Name, field.Type.Default)
+					continue
+				}
 				defaults.Set(field.Name, jenny.defaultValueForStructs(field.Type.AsStruct(), orderedmap.FromMap(defaultMap)))
 				continue
 			default:
